@@ -62,7 +62,7 @@ def run(ctx):
         if os.path.exists(sp):
             for ln in open(sp):
                 parts = ln.split()
-                if len(parts) >= 3:
+                if len(parts) >= 3 and parts[0] == "start":
                     started[parts[1]] = parts[2]
         tp = os.path.join(ctx.work, "supervisor_trace.cases")
         if os.path.exists(tp):
@@ -101,7 +101,10 @@ def run(ctx):
         "goroutines returning nil / error / (wrapped) context.Canceled / DeadlineExceeded / panicking, on trees of depth <= 3; half of "
         "the cases add perturbations (arbitrary node states, cancelled contexts, fabricated requests for unknown dns) so that every branch "
         "of the anchored functions is reached; after EVERY operation the full tree (state, ctx.Err, back-off interval, groups), the "
-        "requests sent on pReq and the live goroutines with their ctx.Err are compared with the Lean model. "
+        "requests sent on pReq and the live goroutines with their ctx.Err are compared with the Lean model; 40 further cases per seed "
+        "(own PRNG, `pp=1` in the reset line) play the same game on a supervisor value with `propagatePanic` set - what "
+        "supervisor.New(..., WithPropagatePanic), guardiand's call, produces - with every kind of return and no panicking runnable "
+        "(model: `reportOf`, the option is only consulted when a panic unwinds the runnable). "
         "part (ii) `tr*`: scripted services (failure kind, failure time, exit latency, Done-then-linger) under the real supervisor.New "
         "with the race detector; the observed enter/signal/exit trace must be accepted by the model (search over hidden processor steps) "
         "and the Spec clauses are evaluated on the trace itself. Besides the fixed, random and cancel-inside-the-back-off-window scenarios "
@@ -115,7 +118,15 @@ def run(ctx):
         "[a-z0-9_] character, among 10-24 fresh valid names; first, middle or last call of its set-up) in its first two or three "
         "incarnations and returns that error, or ignores it and fails later (error / plain return / panic / its parent fails); the "
         "refused call must leave nothing behind that keeps the caller or an ancestor from being started again (`not-restarted`, settle "
-        "bound 4 s where every back-off is <= 72 ms). evaluations = operations/events replayed; distinct_nontrivial = cases "
+        "bound 4 s where every back-off is <= 72 ms). The `propagate-panic-*` family: for every non-empty combination of the "
+        "options supervisor.New accepts (today only WithPropagatePanic, which guardiand passes) every fixed scenario and a PRNG-chosen "
+        "3/4 of all the others (random trees, cancel-inside-the-back-off-window, completed-*, rejected-*, done-member-*) in which no "
+        "script panics (no `fail: panic`, no out-of-order Signal) is run a second time under a supervisor built with these options "
+        "(about 45-50 traces per seed, own PRNG, appended last; `opts=` in the trace's first line, driver stat "
+        "trace_with_supervisor_options); services return an error / nil / a (wrapped, sub-)context error / after Done, and the same "
+        "clauses apply (`not-restarted`, `group-not-cancelled`, ...; settle bound 4 s where every back-off is <= 72 ms and every exit "
+        "latency <= 400 ms); the model replays them with the option on (a logged panic would be refused). "
+        "evaluations = operations/events replayed; distinct_nontrivial = cases "
         "(sequences / traces) on which model and implementation agreed throughout and the Spec held.")
     ctx.cov["trusted_base"] += [
         "harness/supervisor/*_verif_test.go (generators, canonical dump, event log) and Whv/Driver/Supervisor.lean (comparison, acceptance search)",
@@ -125,7 +136,11 @@ def run(ctx):
     ctx.assumptions += [
         "PARTIAL BY NATURE: Go scheduling, the 1 ms GC ticker, back-off sleepers and channel hand-offs are modelled as arbitrary "
         "interleaving of processor steps and runnable actions (every request stays pending for an arbitrary finite time); they are not verified",
-        "panic capture is on (WithPropagatePanic unset); a runnable uses only its own context for Signal/RunGroup and stops using it when it returns",
+        "a PANICKING runnable is only exercised with panic capture on (supervisors built without options): with WithPropagatePanic "
+        "(guardiand's configuration) an unrecovered panic ends the whole process - the option's documented purpose, outside the statement's "
+        "'returns or panics (with panic capture on)' and an explicit `crashed` outcome in the model; services that RETURN are exercised under "
+        "both configurations (c18_propagate_panic_returning_same: for panic-free actions the two systems are the same)",
+        "a runnable uses only its own context for Signal/RunGroup and stops using it when it returns",
         "data-race freedom is observed with -race on the generated runs, not proved",
         "restart 'after a bounded back-off' is proved as: the GC emits the reschedule request with nominal interval <= MaxInterval; the real "
         "sleep and the library's randomisation are observed in part (ii) only",
